@@ -619,6 +619,10 @@ def install():
     circus.process.Popen = SimPopen
     circus.controller.zmqstream = types.SimpleNamespace(ZMQStream=FakeStream)
     circus.controller.SysHandler = NoSysHandler
+
+    def _no_udp(*a, **kw):
+        raise OSError('multicast discovery is not part of the simulation')
+    circus.controller.create_udp_socket = _no_udp
     circus.arbiter.zmq = _ZmqShim()
     circus.arbiter._setproctitle = lambda t: None
     for n in ('circus', 'tornado', 'asyncio', 'tornado.application', 'tornado.general'):
